@@ -552,10 +552,58 @@ def r_window_mirror(rep, hc):
                     rep.violation("R-WINDOW-MIRROR", key + ":slack:%s" % dirn, "the %s window test `T + %r %s 0` rejects a requested time within the handler's own slack beyond the step end x: "
                                   "when the final step lands an ulp short of xend, a requested time equal to xend is silently dropped" % ("forward" if sgn > 0 else "backward", q, op), sp(te["node"]))
                     return
-    if n_cmp < 3 or n_slack < 2:
-        rep.inconc("R-WINDOW-MIRROR", key, "only %d window comparisons / %d step-end tests found" % (n_cmp, n_slack))
+    # the flush before a terminal event: a requested time that lies before the event - by however little - is reported.
+    # A test of the form T < E - tol loses the times within the slack before the event (they are not reported later either:
+    # the run stops at the event).
+    n_evt = 0
+    for dirn, sgn in (("fwd", 1.0), ("bwd", -1.0)):
+        for te in sites[dirn]:
+            tv = te["value"]
+            ta = tv.single_atom()
+            known_ = [(cv, branch == "then") for node_, branch, cv in te.get("pc", [])] + [(cv, bool(tr_)) for cv, tr_ in te.get("facts", [])]
+            for cv, truth0 in known_:
+                stack = [(cv, truth0)]
+                while stack:
+                    c_, truth = stack.pop()
+                    a_ = c_.single_atom() if isinstance(c_, Poly) else None
+                    d_ = DEFS.get(a_) if a_ else None
+                    if not d_:
+                        continue
+                    if d_[0] == "and" and truth:
+                        stack.extend((x_, True) for x_ in d_[1] if isinstance(x_, Poly))
+                        continue
+                    if d_[0] == "not" and len(d_[1]) == 1:
+                        stack.append((d_[1][0], not truth))
+                        continue
+                    if d_[0] not in ("ge", "gt", "le", "lt") or len(d_[1]) != 2 or not all(isinstance(q_, Poly) for q_ in d_[1]):
+                        continue
+                    op = d_[0] if truth else {"ge": "lt", "gt": "le", "le": "gt", "lt": "ge"}[d_[0]]
+                    p_ = d_[1][0] - d_[1][1]
+                    lin = {m[0][0]: c for m, c in p_.t.items() if len(m) == 1 and m[0][1] == 1}
+                    if len(lin) != len([m for m in p_.t if m]) or ta not in lin or abs(lin[ta]) != 1:
+                        continue
+                    others = [b_ for b_ in lin if b_ != ta and not b_.startswith(("self.", "const:"))]
+                    if len(others) != 1 or others[0] in TIME or lin[others[0]] != -lin[ta]:
+                        continue
+                    E = others[0]
+                    if not (E.startswith("phi~comp") or "event" in E or E.startswith("proj[")):
+                        continue
+                    env = {E: 1.0, ta: 1.0 - sgn * 0.5e-3}
+                    try:
+                        val = pnum.value(p_, env, lambda nm: 1e-3 if nm.startswith("self.") else None)
+                    except pnum.NoEval:
+                        continue
+                    holds = {"ge": val >= 0, "gt": val > 0, "le": val <= 0, "lt": val < 0}[op]
+                    n_evt += 1
+                    if not holds:
+                        rep.violation("R-WINDOW-MIRROR", key + ":before-event:%s" % dirn, "on the path that reports requested times before a terminal event, the test `%s %s 0` rejects a requested time lying less than the "
+                                      "handler's slack before the event: that time is never reported although the run had not stopped yet" % (repr(p_)[:80], op), sp(te["node"]))
+                        return
+    if n_cmp < 3 or n_slack < 2 or n_evt < 2:
+        rep.inconc("R-WINDOW-MIRROR", key, "only %d window comparisons / %d step-end tests / %d before-event tests found" % (n_cmp, n_slack, n_evt))
     else:
-        rep.ok("R-WINDOW-MIRROR", key, "%d sampling site(s), %d window comparisons: forward and backward windows are mirror images" % (len(sites["fwd"]), n_cmp))
+        rep.ok("R-WINDOW-MIRROR", key, "%d sampling site(s), %d window comparisons: forward and backward windows are mirror images; %d step-end and %d before-event tests keep the points within the slack"
+               % (len(sites["fwd"]), n_cmp, n_slack, n_evt))
 
 
 def r_nextidx_mono(rep, hc):
@@ -1640,7 +1688,16 @@ class FinEval:
         """every use of a float parameter is an operand of a comparison whose other side is the literal 0.0"""
         probs = []
         for node, parents in tast.find_with_parents(self.body["body"], lambda z: z.get("k") == "Path" and z.get("id") in param_ids):
-            par = parents[-1] if parents else {}
+            # products and negations of the arguments are sign-determined too: climb through them to the comparison
+            ps = list(parents)
+            while ps and ((ps[-1].get("k") == "Binary" and ps[-1]["op"] == "Mul") or (ps[-1].get("k") == "Unary" and ps[-1].get("op") in ("Neg", "Deref")) or ps[-1].get("k") in ("Paren", "DropTemps")):
+                node = ps.pop()
+            par = ps[-1] if ps else {}
+            if par.get("k") == "Let" and par.get("init") is node and par["pat"].get("k") == "PBind":
+                # a named product: every use of the name must itself be a comparison with 0.0
+                uses = self.comparison_only({par["pat"]["id"]})
+                probs.extend(uses)
+                continue
             if par.get("k") == "Binary" and par["op"] in ("Lt", "Le", "Gt", "Ge", "Eq", "Ne"):
                 other = par["r"] if par["l"] is node else par["l"]
                 if other.get("k") == "Lit" and float(other["v"]) == 0.0:
@@ -1682,6 +1739,8 @@ class FinEval:
             if op == "Or":
                 return bool(self.ev(e["l"], env)) or bool(self.ev(e["r"], env))
             l, r = self.ev(e["l"], env), self.ev(e["r"], env)
+            if op == "Mul":
+                return l * r
             return {"Lt": l < r, "Le": l <= r, "Gt": l > r, "Ge": l >= r, "Eq": l == r, "Ne": l != r}[op]
         if k == "If":
             if self.ev(e["cond"], env):
@@ -1761,6 +1820,21 @@ def r_crossed_table(rep, hc):
                 else:
                     rep.violation("R-CROSSED-TABLE", key, "crossed(%s, %s, %s) is %s; strict %s must %sbe detected under direction %s"
                                   % (ln, rn, dn, out, "same sign" if ln == rn else "sign change", "" if want else "not ", dn), b.get("sp"))
+    # a step that ENDS exactly on a root: arriving from below is a rising event, arriving from above a falling one -
+    # it must be reported under the matching direction (and under All) and must not be reported under the opposite one
+    zeros = [z for z in REPS if z not in ("neg", "pos") and REPS[z] == 0.0]
+    for ln in strict:
+        for rn in zeros:
+            rising = ln == "neg"
+            for dn in dirs:
+                out = table[(dn, ln, rn)]
+                want = True if dn == "All" else (rising if dn == "Positive" else not rising)
+                key = "R-CROSSED-TABLE:%s:%s:%s->%s" % (hc.fn, dn, ln, rn)
+                if out == want:
+                    rep.ok("R-CROSSED-TABLE", key, "crossed = %s" % out)
+                else:
+                    rep.violation("R-CROSSED-TABLE", key, "crossed(%s, %s, %s) is %s: a step ending exactly on a root that is reached from %s must %sbe reported under direction %s"
+                                  % (ln, rn, dn, out, "below" if rising else "above", "" if want else "not ", dn), b.get("sp"))
     rep.extra["crossed_table_cases"] = n
     rep.sample(dict(rule="R-CROSSED-TABLE", table={"%s:%s->%s" % k: v for k, v in list(table.items())[:25]}))
 
@@ -1913,6 +1987,11 @@ class Mode2Mon(mon.Monitor):
     def is_wait_guard(self, n):
         """`dir * (*x - target) >= -tol` with target derived from first_step: the else edge = target not reached yet"""
         c = n["cond"]
+        body = self.hc.body["body"]
+        if c.get("k") == "Path" and c.get("res") == "local" and (c.get("ty") or "") == "bool":
+            lets = tast.find(body, lambda z: z.get("k") == "Let" and z["pat"].get("k") == "PBind" and z["pat"].get("id") == c.get("id") and z.get("init") is not None)
+            if len(lets) == 1:
+                c = lets[0]["init"]
         if not (c.get("k") == "Binary" and c["op"] in ("Ge", "Gt")):
             return False
         return tast.contains(c["l"], lambda z: z.get("k") == "Path" and z.get("id") == self.hc.pid[2]) and \
@@ -1937,6 +2016,12 @@ class Mode2Mon(mon.Monitor):
                 return ((r, True, g),)
         if kind == "else" and n.get("k") == "If" and self.is_dup_guard(n):
             return ((r, p, True),)
+        if kind == "arm" and n.get("k") == "Match" and tast.contains(n["scrut"], lambda z: z.get("k") == "MethodCall" and z.get("name") in ("last", "first") and tast.contains(z["recv"], lambda w: hc.field_is(w, "t"))):
+            # match self.t.last() { Some(&last) if last == *x => {} .. }: the guarded arm is the duplicate case
+            arm = n["arms"][ev[2]]
+            g_ = arm.get("guard")
+            if g_ is not None and g_.get("k") == "Binary" and g_["op"] == "Eq" and tast.contains(g_, lambda z: z.get("k") == "Path" and z.get("id") == hc.pid[2]):
+                return ((r, p, True),)
         if kind == "else" and n.get("k") == "If" and self.is_wait_guard(n):
             self.used_wait.append(n)
             return ((r, p, True),)
